@@ -461,14 +461,22 @@ class Scene:
         return sorted(self.els, key=repr)
 
     def flat(self):
-        """all elements, the members of groups included (flagged)"""
+        """all drawn elements, the members of groups (at any depth) included and flagged; the <g> elements themselves
+        are not listed: how svgbob groups its output is not part of any property"""
         out = []
-        for e in self.els:
+
+        def rec(e, ing):
             if e[0] == 'g':
-                out += [(m, True) for m in e[1]]
+                for m in e[1]:
+                    rec(m, True)
             else:
-                out.append((e, False))
+                out.append((e, ing))
+        for e in self.els:
+            rec(e, False)
         return out
+
+    def leaves(self):
+        return [e for e, _ in self.flat()]
 
 
 def approx_eq(a, b, tol):
